@@ -251,7 +251,14 @@ def analyze_method(job, sdl, schema, pkg: Package, rt: PkgRuntime, mi, modes, kn
                     sig["parent_key_selected_repeatedly"] = True
                 if ent is None:
                     # the object lacking the key was itself selected inside a named fragment (the fragment's text is what is sent)
-                    sig["object_inside_named_fragment"] = any(step[0] == "spread" for via in (cn.via or []) for step in via)
+                    spreads = [step[1] for via in (cn.via or []) for step in via if step[0] == "spread"]
+                    sig["object_inside_named_fragment"] = bool(spreads)
+                    if spreads:
+                        # is that fragment kept as a class of the fragments module (base class), or was it unpacked where it is spread?
+                        from ariadne_codegen.utils import str_to_pascal_case as _pascal
+
+                        _fm = job.get("config", {}).get("fragments_module_name", "fragments")
+                        sig["fragment_kept_as_class"] = all(_fm in pkg.modules and pkg.resolve(_fm, _pascal(f)) is not None for f in spreads)
                 block = ent[0] if ent is not None else z3.Not(z3.And(c["node"].live, c["node"].rt == c["variant"]))
             else:
                 n = c["node"]
